@@ -33,6 +33,23 @@ def main() -> int:
             print("recorded crash of an explorer task; re-run the check to reproduce")
             print(f"VIOLATION property={args.pid} replay={os.path.abspath(args.replay)}")
             return 1
+        if body["case"].get("kind") == "hang":
+            from mc import par
+
+            try:
+                inner = json.loads(body["case"].get("case") or "")
+            except ValueError:
+                inner = None
+            if not isinstance(inner, dict):
+                print("recorded hang of an explorer task without a published case; re-run the check to reproduce")
+                print(f"VIOLATION property={args.pid} replay={os.path.abspath(args.replay)}")
+                return 1
+            verdict = par.run_with_deadline(lambda: mod.replay(inner), par.CASE_LIMIT)
+            print(json.dumps({"property": args.pid, "kind": "hang", "case": inner, "observed": verdict}, indent=1))
+            if verdict == "timeout":
+                print(f"VIOLATION property={args.pid} replay={os.path.abspath(args.replay)}")
+                return 1
+            body["case"] = inner
         msgs = mod.replay(body["case"])
         print(json.dumps({"property": args.pid, "kind": body.get("kind"), "case": body["case"],
                           "observed": msgs}, indent=1, default=str))
@@ -41,6 +58,10 @@ def main() -> int:
             return 1
         print(f"[{args.pid}] replay: property holds on this case")
         return 0
+    from mc import par
+
+    if par.TASK_LIMIT is None:
+        par.TASK_LIMIT = 1800.0 if args.tier == "quick" else 6 * 3600.0
     run = core.Run(args.pid, args.tier, seed)
     return mod.main(run)
 
